@@ -364,7 +364,8 @@ def with_inputs(spec, values):
 
 def build_spec(spec):
     return dict(sheets=spec['sheets'], arrays=spec.get('arrays', ()),
-                names=spec.get('names') or {}, active=spec.get('active'))
+                names=spec.get('names') or {}, active=spec.get('active'),
+                tables=spec.get('tables', ()))
 
 
 def evaluate_cell(model, addr):
